@@ -251,6 +251,15 @@ def run(ctx):
                           "examiner %s panics on arbitrary input: %s" % (_first(r, ["exec", "fn"]), str(r.get("panic"))[:300]),
                           dict(exec=r["exec"], exp=[]))
 
+    # the examiners read what the wire tracer captured (end-of-stream content, trailers): WireChecks.tla takes "the
+    # captured content is the content that was on the wire, whatever came before on other responses" as given - that
+    # is BodyTrace.tla's binding; a reduced form of it runs here (many bodies through the tracer in one process,
+    # among them bodies cut inside their end-of-stream message)
+    import sys
+    sys.path.insert(0, os.path.dirname(os.path.abspath(__file__)))
+    import c14
+    c14.replay_reduced(ctx)
+
     ctx.cov["exhaustive"] = False
     ctx.cov["rule"] = ("TLC enumerates, per examiner, every abstract input of the bounded family (byte-class strings and line-shape "
                        "combinations for trailer blocks, percent strings, all combinations of the three status headers and their "
